@@ -19,6 +19,7 @@ import (
 	"github.com/dominant-strategies/go-quai/crypto"
 	"github.com/dominant-strategies/go-quai/ethdb"
 	"github.com/dominant-strategies/go-quai/trie"
+	"google.golang.org/protobuf/proto"
 	"verifharness/hlib"
 )
 
@@ -91,7 +92,7 @@ func classState(err error) int {
 // execClass is a coarse, stable class of an execution error (for the distribution only).
 func execClass(err error) string {
 	s := err.Error()
-	for _, k := range []string{"is not in order or not found", "could not pop etx", "nonce too low", "nonce too high", "insufficient funds", "gas price less", "base fee less",
+	for _, k := range []string{"is not in order or not found", "could not pop etx", "total number of ETXs", "nonce too low", "nonce too high", "insufficient funds", "gas price less", "base fee less",
 		"invalid transaction v, r, s", "invalid sender", "gas limit reached", "intrinsic gas", "total gas used by ETXs", "is nil", "could not apply tx", "qi tx", "UTXO", "signature"} {
 		if strings.Contains(s, k) {
 			return strings.ReplaceAll(k, " ", "-")
@@ -258,6 +259,22 @@ func snapshotLayer(k string) bool {
 	return strings.HasPrefix(k, "Snapshot") || (len(k) == 33 && k[0] == 'a') || (len(k) == 65 && k[0] == 'o')
 }
 
+// normKeyValues decodes a types.ProtoKeysAndValues record and re-encodes it as the sorted list of its pairs
+// (the lockup-delta record of a block, prefix "ld", is written by ranging over a Go map, so two runs of the
+// same block produce the same pairs in different orders).
+func normKeyValues(v string) string {
+	var p types.ProtoKeysAndValues
+	if err := proto.Unmarshal([]byte(v), &p); err != nil {
+		return "undecodable:" + v
+	}
+	var l []string
+	for _, kv := range p.KeysAndValues {
+		l = append(l, hlib.Hex(kv.Key)+":"+hlib.Hex(kv.Value))
+	}
+	sort.Strings(l)
+	return strings.Join(l, ",")
+}
+
 // diffSnaps lists the keys that differ and are not content-addressed additions.
 func diffSnaps(a, b snap) (sig []diffEntry, contentAdds int) {
 	for k, v := range b {
@@ -271,6 +288,9 @@ func diffSnaps(a, b snap) (sig []diffEntry, contentAdds int) {
 			}
 			sig = append(sig, diffEntry{hlib.Hex([]byte(k)), "added:" + keyClass(k)})
 		} else if av != v {
+			if strings.HasPrefix(k, "ld") && len(k) == 34 && normKeyValues(av) == normKeyValues(v) {
+				continue // rawdb.WriteNewLockups serialises a Go map in iteration order: same set of (address, delta) pairs
+			}
 			sig = append(sig, diffEntry{hlib.Hex([]byte(k)), "changed:" + keyClass(k)})
 		}
 	}
@@ -409,9 +429,13 @@ func (c *chain) step(rc *runCtx, i int) (stop bool) {
 		rc.rep.Fail(sig, what, cj)
 	}
 	rc.rep.Count(fmt.Sprintf("block/pool-qi-conflicts-left-out=%s", bucket(c.conflictsLeftOut(b))))
+	if sig, what := c.checkNonceSequence(b, head); sig != "" {
+		rc.rep.Fail(sig, what, cj)
+	}
+	c.countSkipped(b, head)
 
 	// sibling on a copy of the pre-state
-	doMut := c.funded && (rc.tgt != nil || rm.Chance(rc.mutPct)) && !c.noMut
+	doMut := c.funded && (rc.tgt != nil || rm.Chance(rc.mutPct) || (c.startup && i%2 == 1)) && !c.noMut
 	if rc.tgt != nil && rc.tgt.block != i {
 		doMut = false
 	}
@@ -433,7 +457,16 @@ func (c *chain) step(rc *runCtx, i int) (stop bool) {
 		rc.rep.Fail("own-block/rejected-by-ValidateBody/"+verdictNames[verdict], "a block assembled by the worker fails the node's own ValidateBody: "+vbErr.Error(), cj)
 	} else {
 		var known bool
-		some, rr, known, _ = observeExec(c.n, b)
+		var perr error
+		some, rr, known, perr = observeExec(c.n, b)
+		if some && known {
+			if sig, what := checkPendingVsReexecution(d, rr); sig != "" {
+				if perr != nil {
+					what += "; Process: " + perr.Error()
+				}
+				rc.rep.Fail(sig, what, cj)
+			}
+		}
 		func() {
 			defer func() {
 				if p := recover(); p != nil {
@@ -495,7 +528,10 @@ func (c *chain) step(rc *runCtx, i int) (stop bool) {
 	}
 	c.afterAppend(b)
 	if !c.funded || c.script != nil || rd.Chance(45) {
-		in := c.inbound(rd, b)
+		var in types.Transactions
+		if !c.startup {
+			in = c.inbound(rd, b)
+		}
 		if c.script != nil {
 			in = append(in, c.script(c, i, b)...)
 		}
@@ -555,6 +591,30 @@ func (c *chain) runMutants(rc *runCtx, i int, b, parent *types.WorkObject, pre e
 	fto := c.w.eoas[0].addr
 	fake := etx(&types.ExternalTx{To: &fto, Gas: 100000, Value: bigPow10(20), EtxType: types.DefaultType, OriginatingTxHash: originHash(rm, common.Location{1, 0}), ETXIndex: 3, Sender: c.w.farQuai[2].addr})
 	muts := buildMutants(b, rm, foreign, fake, parent)
+	// adversarial re-rooting of the rule-violating bodies (on its own node over the pre-state): a body the
+	// real Process refuses by itself cannot be offered in that form and is dropped from the battery
+	if rn, err := openNode(copyDb(pre, c.logger), c.w, c.cfg, c.logger); err == nil {
+		kept := muts[:0]
+		rn.z.Locked(func() {
+			for _, m := range muts {
+				if !m.reroot || (rc.tgt != nil && rc.tgt.mutant != "" && rc.tgt.mutant != m.Name) {
+					kept = append(kept, m)
+					continue
+				}
+				rc.rep.Evaluations++
+				ok, why := rerootAll(rn, m.wo)
+				if ok {
+					kept = append(kept, m)
+					rc.rep.Count("reroot/" + m.sigName() + "→process-accepts-the-body")
+				} else {
+					rc.rep.Count("reroot/" + m.sigName() + "→refused/" + why)
+					rc.rep.Nontrivial("r/" + m.sigName() + "/" + why)
+				}
+			}
+		})
+		rn.z.Close()
+		muts = kept
+	}
 
 	// Mutants are processed in batches, one sibling node per batch (a new sibling, on a fresh copy of
 	// the pre-state, is opened whenever a mutant was accepted or left a trace). Within a batch: every
@@ -693,7 +753,9 @@ func (c *chain) mutantBatch(rc *runCtx, i int, b, parent *types.WorkObject, sib 
 					if m.wo.Hash() == b.Hash() {
 						rc.rep.Fail("mutant-accepted/same-hash/"+m.Name, "a mutated block with the original block hash was accepted", e.cj)
 					} else if !m.mayAccept {
-						rc.rep.Fail("mutant-accepted/"+m.Name, "a block deviating from re-execution was accepted: "+m.Name, e.cj)
+						rc.rep.Fail("mutant-accepted/"+m.sigName(), "a block deviating from re-execution was accepted: "+m.Name, e.cj)
+					} else if m.reroot {
+						rc.rep.Count("accepted-other-valid-block/" + m.sigName())
 					} else {
 						// a different candidate block: must commit to the very same results
 						dm, db_ := declaredOf(m.wo), declaredOf(b)
@@ -708,9 +770,9 @@ func (c *chain) mutantBatch(rc *runCtx, i int, b, parent *types.WorkObject, sib 
 			}()
 		}
 		e.cj.Verdict = verdictNames[e.verdict]
-		rc.rep.Count("mutant/" + m.Name + "→" + verdictNames[e.verdict])
+		rc.rep.Count("mutant/" + m.sigName() + "→" + verdictNames[e.verdict])
 		if e.verdict != vOk {
-			rc.rep.Nontrivial("m/" + m.Name + "/" + verdictNames[e.verdict] + "/" + e.cj.ExecErr)
+			rc.rep.Nontrivial("m/" + m.sigName() + "/" + verdictNames[e.verdict] + "/" + e.cj.ExecErr)
 		}
 		if emitCase {
 			rc.emit(e.cj.ID, e.d, e.bo, some, rr, e.verdict, e.cj)
